@@ -3,7 +3,9 @@
      - proof_sound  (every history): a proof names the checked slot/signer/header and a
        different header that an earlier check presented for the same slot and signer;
      - expected     (sequential histories: current slot monotone, no header from the future):
-       the answer is exactly `expected history check`  (C27_exact_sequential). *)
+       the answer is exactly `expected history check`  (C27_exact_sequential);
+     - spec_answers (EVERY history, also chaotic ones): the answers are exactly those of the
+       window specification Model.a_step (C27_window_spec). *)
 open Model
 open Vutil
 
@@ -51,6 +53,13 @@ let check inp obs =
     let nontrivial = ref false in
     if List.length otoks <> n + 2 then why := ["shape"] else begin
       let seq = sequential cs in
+      (* window specification on the implementation's answers, every history *)
+      let sa = spec_answers cs in
+      List.iteri (fun i (t, e) ->
+        match parse_out t with
+        | Some o when o = e -> ()
+        | _ -> why := (Printf.sprintf "check%d:window-spec=%s" i (str_out e)) :: !why)
+        (List.combine (List.filteri (fun i _ -> i < n) otoks) sa);
       tag (if seq then "sequential" else "chaotic");
       (* walk: prefix history (in order), model state for coverage tags *)
       let rec go i hist_rev st cs toks =
@@ -91,4 +100,38 @@ let check inp obs =
                 Printf.sprintf "%s model=%s" (String.concat ";" (List.rev !why)) model) }
   | _ -> fail "C27: bad input %s" inp
 
-let () = run_driver check
+(* vm_compute cross-check: answers, first saved slot and table recomputed inside Coq *)
+let coq inp obs =
+  match split_ws inp with
+  | "seq" :: cs ->
+    let cs = List.map parse_chk cs in
+    let n = List.length cs in
+    let otoks = split_ws obs in
+    if List.length otoks <> n + 2 then None else begin
+      let outs = List.filteri (fun i _ -> i < n) otoks in
+      let st = List.nth otoks n and db = List.nth otoks (n + 1) in
+      let strip p s = let l = String.length p in
+        if String.length s >= l && String.sub s 0 l = p then Some (String.sub s l (String.length s - l)) else None in
+      match strip "start:" st, strip "db:" db with
+      | Some st, Some db when List.for_all (fun t -> parse_out t <> None) outs ->
+        (try
+          let chk c = Printf.sprintf "mkchk %s %s %s %s" (coq_n c.c_now) (coq_n c.c_slot) (coq_n c.c_hdr) (coq_n c.c_signer) in
+          let out t = match parse_out t with
+            | Some (Some p) -> Printf.sprintf "Some (mkproof %s %s %s %s)" (coq_n p.p_slot) (coq_n p.p_offender) (coq_n p.p_first) (coq_n p.p_second)
+            | _ -> "None" in
+          let ent e = match String.split_on_char '=' e with
+            | [k; v] -> Printf.sprintf "(%s, [%s])" (coq_n (n_of_hex k))
+                (String.concat "; " (List.map (fun hs -> match String.split_on_char '.' hs with
+                   | [h; s] -> Printf.sprintf "(%s, %s)" (coq_n (n_of_hex h)) (coq_n (n_of_hex s))
+                   | _ -> raise Exit) (String.split_on_char '+' v)))
+            | _ -> raise Exit in
+          Some (Printf.sprintf "vm_case [%s] [%s] %s [%s]"
+            (String.concat "; " (List.map chk cs)) (String.concat "; " (List.map out outs))
+            (if st = "-" then "None" else "(Some " ^ coq_n (n_of_hex st) ^ ")")
+            (if db = "-" then "" else String.concat "; " (List.map ent (String.split_on_char ';' db))))
+        with Exit -> None)
+      | _ -> None
+    end
+  | _ -> None
+
+let () = run_driver ~coq check
